@@ -99,6 +99,8 @@ struct ProdEv {
     res: ApiRes,
     steps: u64,
     blocks: u64,
+    /// waits for a lock held by another task during the call (not counted in `blocks`)
+    lock_waits: u64,
     step_at: u64,
     step_before: u64,
     gate_closed: bool,
@@ -266,9 +268,10 @@ fn call<R>(f: impl FnOnce() -> R) -> Result<R, String> {
     }
 }
 
-fn stats3() -> (u64, u64, u64) {
-    let (a, b) = kernel::my_stats();
-    (a, b, kernel::steps())
+/// (own steps, blocked states other than short waits for a mutex, global step)
+fn stats3() -> (u64, u64, u64, u64) {
+    let (a, b, lock_waits) = kernel::my_stats3();
+    (a, b, kernel::steps(), lock_waits)
 }
 
 /// The text of metric `id` emitted by task `me`: unique, optionally with a multi-byte tail whose
@@ -293,8 +296,8 @@ fn run_prog(task_no: usize, ops: &[QOp], first: QueuingMetricSink, sh: &Arc<Shar
     slots[0] = Some(first);
     let me = kernel::current_task().unwrap_or(0);
     let _ = task_no;
-    let record = |sh: &Shared, what: &str, id: Option<u32>, s: String, res: ApiRes, before: (u64, u64, u64), gate_closed: bool| {
-        let after = kernel::my_stats();
+    let record = |sh: &Shared, what: &str, id: Option<u32>, s: String, res: ApiRes, before: (u64, u64, u64, u64), gate_closed: bool| {
+        let after = kernel::my_stats3();
         sh.prod.lock().unwrap().push(ProdEv {
             task: me,
             what: what.to_string(),
@@ -303,6 +306,7 @@ fn run_prog(task_no: usize, ops: &[QOp], first: QueuingMetricSink, sh: &Arc<Shar
             res,
             steps: after.0 - before.0,
             blocks: after.1 - before.1,
+            lock_waits: after.2 - before.3,
             step_at: kernel::steps(),
             step_before: before.2,
             gate_closed,
@@ -558,7 +562,7 @@ fn sim_main(case: QCase) -> Obs {
             let me = kernel::current_task().unwrap_or(0);
             let before = stats3();
             let r = call(move || drop(o));
-            let after = kernel::my_stats();
+            let after = kernel::my_stats3();
             sh.prod.lock().unwrap().push(ProdEv {
                 task: me,
                 what: "drop".into(),
@@ -570,6 +574,7 @@ fn sim_main(case: QCase) -> Obs {
                 },
                 steps: after.0 - before.0,
                 blocks: after.1 - before.1,
+                lock_waits: after.2 - before.3,
                 step_at: kernel::steps(),
                 step_before: before.2,
                 gate_closed: false,
@@ -586,7 +591,8 @@ fn sim_main(case: QCase) -> Obs {
     let prod = sh.prod.lock().unwrap().clone();
     let samples = sh.samples.lock().unwrap().clone();
     let ledger = sh.ctl.as_ref().map(|c| c.ledger()).unwrap_or_default();
-    Obs { log, prod, samples, chan: kernel::chan_log(), snaps, final_tasks: kernel::task_table(), all_dropped, ledger }
+    let chan = normalise_chan(kernel::chan_log(), &prod);
+    Obs { log, prod, samples, chan, snaps, final_tasks: kernel::task_table(), all_dropped, ledger }
 }
 
 fn gen_prog(rng: &mut Rng, n: usize, next_id: &mut u32, n_gates: usize, w_clone: u32, w_drop: u32, w_flush: u32) -> Vec<QOp> {
@@ -665,7 +671,9 @@ impl Engine for E3 {
         }
     }
 
-    fn generate(rng: &mut Rng, focus: &str, _tier: Tier) -> QCase {
+    fn generate(rng: &mut Rng, focus: &str, tier: Tier) -> QCase {
+        // thorough tier: half of the cases have programs twice as long and up to five producers
+        let deep = tier == Tier::Thorough && rng.split(9).chance(1, 2);
         let mut cfg = rng.split(1);
         let mut prog = rng.split(2);
         let mut flt = rng.split(3);
@@ -691,7 +699,7 @@ impl Engine for E3 {
             "C09" | "C10" => cfg.usize_below(3),
             _ => *cfg.pick(&[0usize, 0, 1, 2]),
         };
-        let n_prod = cfg.usize_below(4);
+        let n_prod = cfg.usize_below(if deep { 6 } else { 4 });
         let mut next_id = 0u32;
         let (w_clone, w_drop) = match focus {
             "C08" | "C09" => (14, 12),
@@ -716,11 +724,11 @@ impl Engine for E3 {
         };
         let w_flush = if wrapped_buffered.is_some() { 14 } else { 2 };
         let sock_full: Vec<usize> = if wrapped_buffered.is_some() && cfg.chance(1, 2) { (0..1 + cfg.usize_below(2)).map(|_| cfg.usize_below(5)).collect() } else { Vec::new() };
-        let n_main = prog.usize_below(9);
+        let n_main = prog.usize_below(if deep { 18 } else { 9 });
         let main_ops = gen_prog(&mut prog, n_main, &mut next_id, n_gates, w_clone, w_drop, w_flush);
         let mut producers = Vec::new();
         for _ in 0..n_prod {
-            let n = prog.usize_below(9);
+            let n = prog.usize_below(if deep { 18 } else { 9 });
             producers.push(gen_prog(&mut prog, n, &mut next_id, n_gates, w_clone, w_drop, w_flush));
         }
         let mut main_ops = main_ops;
@@ -937,6 +945,43 @@ impl Engine for E3 {
     }
 }
 
+/// The channel shim can describe an entry only if its type is one it knows (`Option<String>`,
+/// `String`, `Vec<u8>`). A variant of the code that queues something else (an enum, a struct, a
+/// boxed or shared string) is just as correct: its entries show up as "?". Such entries are given
+/// their identity from what is implementation-independent: a send made by task t inside the step
+/// window of t's emit of string s carries s; a FIFO channel hands entries out in the order in which
+/// they went in. Entries the shim could describe are left alone (a queued text that differs from
+/// the emitted one must stay visible).
+fn normalise_chan(mut chan: Vec<ChanEvent>, prod: &[ProdEv]) -> Vec<ChanEvent> {
+    if !chan.iter().any(|c| c.payload == "?") {
+        return chan;
+    }
+    let mut fifos: std::collections::BTreeMap<u64, std::collections::VecDeque<String>> = std::collections::BTreeMap::new();
+    for c in chan.iter_mut() {
+        let is_send = c.op == "try_send" || c.op == "send";
+        if is_send && c.payload == "?" {
+            if let Some(e) = prod.iter().find(|e| e.what == "emit" && e.task == c.task && e.step_before < c.step && c.step <= e.step_at) {
+                c.payload = format!("S:{}", e.s);
+            } else {
+                // a send outside every emit: the implementation's own signalling (a stop marker)
+                c.payload = "NONE".to_string();
+            }
+        }
+        if is_send && c.ok {
+            fifos.entry(c.chan).or_default().push_back(c.payload.clone());
+        }
+        if c.op == "recv" || c.op == "try_recv" {
+            if c.ok {
+                let p = fifos.entry(c.chan).or_default().pop_front();
+                if c.payload == "?" {
+                    c.payload = p.unwrap_or_else(|| "?".to_string());
+                }
+            }
+        }
+    }
+    chan
+}
+
 fn judge(case: &QCase, main: &Option<Obs>, end_tasks: &[TaskInfo], out: &mut Outcome, want_trace: bool) {
     let rendezvous = case.cap == Some(0);
     let obs = match main {
@@ -1092,8 +1137,10 @@ fn judge(case: &QCase, main: &Option<Obs>, end_tasks: &[TaskInfo], out: &mut Out
         if e.blocks > 0 {
             out.violate(&["C10"], "queue.emit-blocked", format!("emit {} on task {} entered a blocked state {} time(s)", e.s, e.task, e.blocks));
         }
-        if e.steps > 12 {
-            out.violate(&["C10"], "queue.emit-not-prompt", format!("emit {} took {} scheduling steps of its own task", e.s, e.steps));
+        // the real emit takes 2 steps; a variant that takes short locks needs a few more, and a
+        // few per wait for such a lock; a loop that polls for queue room needs unboundedly many
+        if e.steps > 12 + 8 * e.lock_waits {
+            out.violate(&["C10"], "queue.emit-not-prompt", format!("emit {} took {} scheduling steps of its own task ({} waits for a lock)", e.s, e.steps, e.lock_waits));
         }
         // the channel event of this emit
         let ce = obs.chan.iter().find(|c| (c.op == "try_send" || c.op == "send") && c.payload.starts_with("S:") && c.payload[2..] == e.s && c.task == e.task);
@@ -1149,7 +1196,9 @@ fn judge(case: &QCase, main: &Option<Obs>, end_tasks: &[TaskInfo], out: &mut Out
         }
     }
     if let Some(cap) = case.cap {
-        for c in &obs.chan {
+        // only the channel(s) that carry metrics: a variant may use further channels of its own
+        let metric_chans: std::collections::BTreeSet<u64> = obs.chan.iter().filter(|c| c.payload.starts_with("S:")).map(|c| c.chan).collect();
+        for c in obs.chan.iter().filter(|c| metric_chans.contains(&c.chan)) {
             if c.len_after > cap {
                 out.violate(&["C10"], "queue.capacity-exceeded", format!("the queue held {} entries, capacity given to the constructor is {cap}", c.len_after));
                 break;
@@ -1194,6 +1243,32 @@ fn judge(case: &QCase, main: &Option<Obs>, end_tasks: &[TaskInfo], out: &mut Out
                     &["C10"]
                 };
                 out.violate(props, "queue.caller-blocked", format!("task {} ({}) is blocked for ever inside `{}`", t.id, t.name, t.label));
+            }
+        }
+    }
+    // ---- blocked callers at a harness-made idle point ----
+    // Every other task is blocked or finished there and (in the first snapshot) the gates are
+    // still closed: a caller sitting inside emit / drop / clone / a counter read at that moment
+    // is waiting for something only the stalled wrapped sink will release. This is also what
+    // judges a wait for a lock (not counted as a blocked state of the call itself, because a
+    // short wait for a lock another producer holds is not a wait for the wrapped sink).
+    for s in &obs.snaps {
+        for t in &s.tasks {
+            if !t.anon && t.id != 0 && t.name != "gatekeeper" {
+                if let TState::Blocked { .. } = t.state {
+                    let props: Option<&[&str]> = if t.label.starts_with("emit") {
+                        Some(&["C10"])
+                    } else if t.label.starts_with("drop") {
+                        Some(&["C09"])
+                    } else if t.label.starts_with("clone") || t.label.starts_with("read") {
+                        Some(&["C10", "C15"])
+                    } else {
+                        None
+                    };
+                    if let Some(props) = props {
+                        out.violate(props, "queue.caller-blocked", format!("at the idle point '{}' task {} ({}) is blocked inside `{}` ({:?})", s.label, t.id, t.name, t.label, t.state));
+                    }
+                }
             }
         }
     }
